@@ -13,7 +13,7 @@ LEVEL_TEXT = ('Lean 4 theorems over tables regenerated from radiometry.py (decim
               'form a cocycle with identity and round trips (64 triples, any field of characteristic 0); the 27 flux triples as '
               'identities of rational functions in flux, wave, H, C; Spectrum.to preserves the trapezoid integral of a density and '
               'the values of a unitless spectrum, composes and round-trips; exitance = pi x radiance and Planck unit-independence between Gen.planckExitance and Gen.planckRadiance, each translated from its own source function, '
-              'with exp uninterpreted; flux-unit composition at spectrum level; the multi-argument to() loop (model applyTo) is proved for ARBITRARY argument lists: arguments compose and a refusal stops the call with the accepted prefix applied (applyTo_append), an unknown name is a ValueError wherever it stands (applyTo_unknown_stops), any number of wavelength units act as the last one (applyTo_waves_last_wins; two-argument instances applyTo_wave_last_wins, applyTo_refusal_keeps_prefix), wavelength and flux conversion commute (spectrum_to_wave_flux_commute), and on a density with non-zero wavelengths any list of valid unit names in any order equals ONE conversion to the last flux unit and ONE to the last wavelength unit named (applyTo_normal_form); Spectrum.to\'s per-sample steps (which of wave/value is multiplied or divided by which factor, the metre detour of flux conversion) are regenerated as Gen.toStep* and the model is defined through them (bridge lemmas toWave_eq/toFlux_eq); a converted grid stays valid (toWave_valid). Partial: Wien peak and Stefan-Boltzmann total are checked numerically only.')
+              'with exp uninterpreted; flux-unit composition at spectrum level; the multi-argument to() loop (model applyTo) is proved for ARBITRARY argument lists: arguments compose and a refusal stops the call with the accepted prefix applied (applyTo_append), an unknown name is a ValueError wherever it stands (applyTo_unknown_stops), any number of wavelength units act as the last one (applyTo_waves_last_wins; two-argument instances applyTo_wave_last_wins, applyTo_refusal_keeps_prefix), wavelength and flux conversion commute (spectrum_to_wave_flux_commute), and on a density with non-zero wavelengths any list of valid unit names in any order equals ONE conversion to the last flux unit and ONE to the last wavelength unit named (applyTo_normal_form); Spectrum.to\'s per-sample steps (which of wave/value is multiplied or divided by which factor, the metre detour of flux conversion) are regenerated as Gen.toStep* and the model is defined through them (bridge lemmas toWave_eq/toFlux_eq); a converted grid stays valid (toWave_valid); the name dispatch of Unit() is regenerated as the table Gen.unitOfName (every lower-cased name of every branch ↦ the `name` attribute of the class returned): the canonical names indexing the conversion tables are fixed points (unit_canonical_names_fixed), the documented aliases meter/micron/nanometer resolve like m/um/nm, every accepted name resolves to a canonical name of exactly one of the two tables and nothing else is accepted (unit_aliases_resolve). Partial: Wien peak and Stefan-Boltzmann total are checked numerically only.')
 LEVEL_NOTE = ('what the theorems establish: CONSISTENCY of the conversion tables (cocycle, identity, round trips) and of Spectrum.to/Planck with them, plus absolute anchors — wave_factor_absolute (every wavelength factor = ratio of hand-written SI sizes), flux_factor_absolute (photlam→wlam = f·h·c/λ, wlam↔flam = 10³), constants_near_codata (H, C, K within 1e-6 of CODATA 2018), planck_closed_form (the translated functions are 2hc²/(λ⁵(e^{hc/λkT}−1)) and 2π·…); exp itself is uninterpreted, so the unit-independence theorems hold for any function of λ[m] and T in its place. partial: the clauses "peaks where Wien\'s law says" and "integrates to the Stefan-Boltzmann total" have no theorem '
               '(they need d/dλ of Planck\'s law and ∫x³/(eˣ−1)=π⁴/15); they are evaluated numerically on the implementation in every '
               'run. Trusted: tools/specs/c14.py (if-chain/literal reader), np.exp, np.trapz as Σ Δx·(y₀+y₁)/2.')
@@ -23,8 +23,8 @@ OPS = ['C14']
 RULE = ('all 64 wavelength-unit triples and all 27 flux-unit triples (exhaustive, every run) with random dyadic wavelengths/fluxes; '
         'random spectra (2..9 dyadic samples, every wave unit, unitless and the 3 flux units) through 1..3 chained Spectrum.to '
         'targets incl. unit aliases and refused calls; Planck radiance/exitance at random temperatures 200..12000 K in all 4x3 unit '
-        'pairs; Wien/Stefan-Boltzmann numerics; vegaflux bands. distinct = (kind, units, sizes); non-trivial = units differ')
-TRUSTED = ['np.exp; np.trapz computes Σ (x[k+1]-x[k])·(y[k+1]+y[k])/2',
+        'pairs; Wien/Stefan-Boltzmann numerics; vegaflux bands; names outside the tables (exhaustive, every run: each of the 7 `to` methods with an unknown name and with a name of the other table, Unit() and vegaflux() with unknown names: must be ValueError). distinct = (kind, units, sizes); non-trivial = units differ')
+TRUSTED = ['str.lower() (Unit compares name.lower(); the table Gen.unitOfName is on lower-cased names)', 'np.exp; np.trapz computes Σ (x[k+1]-x[k])·(y[k+1]+y[k])/2',
            'tools/specs/c14.py reads the if/elif dispatch chains and decimal literals of the unit classes']
 UNPROVEN = ['Spectrum.to(*units): the theorems about arbitrary argument lists are about the model applyTo, which is compared with the implementation on 1..3 arguments only; a flux unit named for a UNITLESS spectrum inside a longer list is covered by applyTo_append + spectrum_to_flux_unitless_refused, not by the normal form',
             'Wien and Stefan-Boltzmann are numerical checks on the implementation (no theorem): the peak of planck_radiance is located on a 40001-point grid spanning ±2 % around b/T (resolution 1e-6) and must satisfy λ_max·T = hc/(k·4.965114231744276) to 2e-6, plus a coarse global search to 2e-3; ∫ planck_exitance dλ over 2e-8…2e-2 m on 400001 log-spaced points must equal σT⁴ = 2π⁵k⁴/(15h³c²)·T⁴ to 1e-5 (trapezoid error of that grid ≈ 1e-7, truncated tails < 1e-9 for 1500 K ≤ T ≤ 9000 K)',
@@ -100,10 +100,16 @@ def generate(rng, tier):
         else:
             if k % 10 == 4: out.append({'kind': 'laws', 'temp': float(int(rng.integers(1500, 9000)))})
             else: out.append({'kind': 'vega', 'band': BANDS[int(rng.integers(0, 12))], 'wu': W[int(rng.integers(0, 4))], 'vu': F[int(rng.integers(0, 3))]})
+    # names outside the tables: every `else: raise ValueError` of the seven `to` methods, of Unit() and of vegaflux (exhaustive, every run)
+    out += [{'kind': 'unknown', 'call': list(cl), 'x': dyadic(rng, 1, 500, 4), 'wave_m': dyadic(rng, 100, 3000, 2) * 2.0 ** -30} for cl in UNKNOWN]
     return out
+
+UNKNOWN = ([('to', u, bad) for u in W for bad in ('parsec', 'photlam')] + [('to', u, bad) for u in F for bad in ('jansky', 'nm')]
+           + [('unit', bad, None) for bad in ('parsec', 'jansky', '')] + [('vega', bad, None) for bad in ('Q', 'w5', '')])
 
 def signature(c):
     k = c['kind']
+    if k == 'unknown': return f"unknown {c['call']}"
     if k in ('wave', 'flux'): return f"{k} {c['a']} {c['b']} {c['c']}"
     if k == 'to': return f"to {c.get('dtype')} {c['wu']} {c['vu']} {c['units']} n={len(c['wave'])} {c['wave'][0]} {c['value'][0]}"
     if k == 'planck': return f"planck {c['temp']} {c['wu']} {c['vu']} {c.get('extreme', False)}"
@@ -119,6 +125,7 @@ def nontrivial(c):
 
 def tags(c):
     t = [c['kind']] + NOTES.pop(id(c), [])
+    if c['kind'] == 'unknown': t.append('unknown:' + c['call'][0] + ':' + str(c['call'][1]))
     if c['kind'] == 'to':
         t.append('to:' + ('unitless' if c['vu'] is None else 'density')); t.append('to:dtype=' + c.get('dtype', 'float'))
         for u in c['units']:
@@ -139,6 +146,15 @@ def impl(c):
 def _impl(c):
     R = _rad()
     k = c['kind']
+    if k == 'unknown':
+        what, u, bad = c['call']
+        try:
+            if what == 'to': r = R.Unit(u).to(bad) if u in W else R.Unit(u).to(c['x'], bad, c['wave_m'])
+            elif what == 'unit': r = R.Unit(u)
+            else: r = R.vegaflux(u)
+            return {'returned': repr(r)[:80]}
+        except Exception as e:
+            return {'exc': type(e).__name__, 'msg': str(e)[:100]}
     if k == 'wave':
         a, b, cc = c['a'], c['b'], c['c']
         al = lambda u: ALIAS[u][-1]
@@ -233,7 +249,7 @@ def _impl(c):
 
 def requests(c, io):
     k = c['kind']
-    if '_harness_exc' in io: return []
+    if '_harness_exc' in io or k == 'unknown': return []
     if k == 'wave':
         return [{'op': 'c14.wave_factor', 'a': x, 'b': y} for x, y in ((c['a'], c['b']), (c['b'], c['c']), (c['a'], c['c']), (c['a'], c['a']), (c['b'], c['a']))]
     if k == 'flux':
@@ -262,6 +278,7 @@ def _cancel(c, io, i):
 
 def compare(c, io, mo):
     k = c['kind']
+    if k == 'unknown': return None
     if k == 'wave':
         for key, m in zip(('ab', 'bc', 'ac', 'aa', 'ba'), mo):
             if not m.get('ok'): return f'model: {m}'
@@ -310,6 +327,10 @@ def _to_wlam(u, lam_m, H, C):
 
 def oracle(c, io):
     k = c['kind']
+    if k == 'unknown':
+        # a name outside the unit / band tables is refused with ValueError, never converted with some factor
+        if io.get('exc') != 'ValueError': return f"{c['call']}: a name outside the documented table is not refused with ValueError: {io}"
+        return None
     if k == 'wave':
         a, b, cc = c['a'], c['b'], c['c']
         ref = float(MPU[a] / MPU[b])
